@@ -3,7 +3,7 @@ library.  Decided: table / template level necessary conditions."""
 import ast
 import re
 
-from sa import tables, templ, pyflow, interop, fmtfields
+from sa import pattern as pat, tables, templ, pyflow, interop, fmtfields
 from sa.loader import AnalysisError, enclosing_function
 
 EXPLANATION = (
@@ -504,6 +504,57 @@ def rule_r10(repo, run, T):
     run.floor(R, "array-filling loops in helpers", n, 2)
 
 
+def rule_r11(repo, run, T):
+    R = run.rule("C03.R11", "values handed to the library come from where they are defined: strlen() is never applied to a "
+                            "buffer the caller does not pass in, arity ranges cover the full signature, borrowed objects "
+                            "kept in a converter are owned")
+    wp = repo.module("wrapp")
+    f = wp.func("ToImplied.visit_Identifier")
+    cur = next((st for st in f.body if isinstance(st, ast.If)), None)
+    n = 0
+    while isinstance(cur, ast.If):
+        t = cur.test
+        fn = pyflow.const_str(t.comparators[0]) if isinstance(t, ast.Compare) else None
+        if fn == "len":
+            for r in [x for x in ast.walk(cur) if isinstance(x, ast.Return) and "strlen" in wp.seg(x) and x in ast.walk(cur)
+                      and not any(x in ast.walk(o) for o in cur.orelse)]:
+                n += 1
+                guards = [wp.seg(tt) for tt, pol in pyflow.early_exit_guards(f, r)] + \
+                         [wp.seg(tt) for tt, pol in pyflow.dominating_tests(r, stop=f)]
+                ok = any("intent" in g and "'out'" in g for g in guards)
+                run.check(R, "wrapp.ToImplied.visit_Identifier:len(out-argument)", ok,
+                          "len(x) is computed with strlen() without first handling intent(out) arguments: for "
+                          "`char *x +intent(out)+charlen(N)` no buffer comes from Python, so strlen reads the wrapper's own "
+                          "uninitialised array instead of using N", wp.loc(r))
+        cur = cur.orelse[0] if len(cur.orelse) == 1 and isinstance(cur.orelse[0], ast.If) else None
+    run.floor(R, "strlen returns in the len() branch", n, 1)
+    # arity range of a function with defaulted arguments: (required, all) of the original declaration
+    gm = repo.module("generate")
+    hd = gm.func("GenFunctions.has_default_args")
+    na = pat.find(hd, "MV_N._nargs = (MV_A, len(MV_N.ast.params))")
+    allasg = pat.find(hd, "MV_N._nargs = MV_V")
+    run.check(R, "generate.GenFunctions.has_default_args:_nargs", len(na) == 1 and len(allasg) == 1 and
+              na[0][1]["N"] == hd.args.args[1].arg,
+              "the arity range stored on the declaration must end at the number of parameters of that same declaration "
+              "(found %s): taken from a truncated clone, a call with all arguments is not dispatched to this overload"
+              % [gm.seg(x[0]) for x in allasg], gm.loc(hd))
+    # converters that keep the caller's object in value->dataobj take a reference (callers release dataobj)
+    nb = 0
+    for key, h in sorted(T["helpers"].c.items()):
+        for k, text in tables.helper_sources(h):
+            code = templ.strip_c_comments("\n".join(templ.strip_layout(l) for l in text.split("\n")))
+            # split into if/else-if branches at top level of the chain
+            for br in re.split(r"\}\s*else\s+if\s*\(|\}\s*else\s*\{|\bif\s*\(", code):
+                if re.search(r"value->dataobj\s*=\s*obj\s*;", br):
+                    nb += 1
+                    run.check(R, "whelpers.CHelpers[%s].%s:dataobj=obj#%d" % (key, k, nb),
+                              re.search(r"Py_INCREF\s*\(\s*obj\s*\)", br) is not None,
+                              "the branch stores the caller's object in value->dataobj without Py_INCREF(obj): the wrapper's "
+                              "cleanup does Py_XDECREF(value.dataobj) and so drops a reference it does not own (the caller's "
+                              "bytes objects are freed under it)", "shroud/whelpers.py")
+    run.floor(R, "converter branches that keep the argument object", nb, 1)
+
+
 def run(repo, run, tier):
     tables.check_model_assumptions(repo)
     T = dict(py=tables.StatementTable(repo, "wrapp", "py_statements"),
@@ -519,4 +570,5 @@ def run(repo, run, tier):
     rule_r8(repo, run, T)
     rule_r9(repo, run)
     rule_r10(repo, run, T)
+    rule_r11(repo, run, T)
     run.assumptions.append("LP64 sizes; CPython PyArg_Parse / Py_BuildValue unit table in the checker")
